@@ -9,6 +9,8 @@
 import PonyVerif.Drive.Util
 import PonyVerif.Model.Translate
 import PonyVerif.Model.Distinct
+import PonyVerif.Lemmas.SqlBEq
+import PonyVerif.Model.Subquery
 namespace PonyVerif.Drive.C01
 open Lean PonyVerif.Drive PonyVerif.Model.Q
 
@@ -253,6 +255,30 @@ def handle (j : Json) : Except String Json := do
         let v := py env e
         pure (Json.mkObj [("k", kToJson v.asK), ("v", scalarToJson v.asV)]))
       pure (Json.mkObj [("ok", .arr outs.toArray)])
+  | "check" =>
+      -- the verified checker (C01_checker_sound / C02_checker_sound) on the REAL translator's conditions
+      let d ← dialectOf j
+      let sch ← schemaOfJson (← j.getObjVal? "schema")
+      let e ← exprOfJson (← j.getObjVal? "expr")
+      let real ← (← argArr j "sql").mapM sqlOfJson
+      pure (Json.mkObj [("accepted", .bool (checkConditions sch d e (SqlList.ofList real))), ("frag", .bool (frag sch d e))])
+  | "checkproj" =>
+      let d ← dialectOf j
+      let sch ← schemaOfJson (← j.getObjVal? "schema")
+      let e ← exprOfJson (← j.getObjVal? "expr")
+      let real ← sqlOfJson (← j.getObjVal? "sql")
+      pure (Json.mkObj [("accepted", .bool (checkProjection sch d e real)), ("frag", .bool (frag sch d e && valueSorted e))])
+  | "subq" =>
+      -- NULL rules: IN / NOT IN over values with NULLs (guarded or not) and the aggregates, for comparison with real SQLite
+      let vals ← (← argArr j "vals").mapM (fun x => match x with
+        | .null => pure (none : Option Int)
+        | v => do pure (some (← jInt v)))
+      let v ← argInt j "v"
+      let guard ← argBool j "guard"
+      let oi : Option Int → Json := fun o => match o with | none => .null | some i => .num (JsonNumber.fromInt i)
+      pure (Json.mkObj [("in", kToJson (sqlIn (some v) (subselect guard vals))), ("notin", kToJson (sqlNotIn (some v) (subselect guard vals))),
+        ("sum", .num (JsonNumber.fromInt (ponySum vals))), ("count", .num (JsonNumber.fromNat (sqlCount vals))),
+        ("min", oi (sqlMin vals)), ("max", oi (sqlMax vals))])
   | "distinct" =>
       -- DISTINCT inference for `select((items) for x in X)`: pk = key attribute names, items = "*" (the variable), "name" (plain attribute) or null (expression)
       let pk ← (← argArr j "pk").mapM jStr
